@@ -12,6 +12,14 @@ Drivers/C13.lean) and pyyeti.nastran.bulk:
            independently generated variants; number fields are compared as exact decimals
            (float(Fraction) == value the code returns).
 
+Second model file lean/PyYetiVerif/Model/BulkGrid.lean: writer.vecwrite (argument packaging, the `length` rule and
+its ValueError / IndexError), wtgrids (8 / 16 wide, short form and PS / SEID form, every packaging of cp / xyz / cd / ps /
+seid), wtcoordcards, the layout of uset2bulk — exact text, the coordinate fields formatted by Python and handed over as
+opaque tokens; readers rdgrids (array mode, ragged cards padded with 0), rdcards(regex cord2, keep_name) and
+rdcord2cards (the twelve numbers per card exactly, and the final dictionary through the real n2p.build_coords), on the
+written texts and on independently rendered GRID / CORD2x files; rddmig is compared frame by frame with the frame the
+Lean model assembles (DmigRead.frame).
+
 The model-free oracle restates the property on the API: read(write(x)) == x for every pair, including
 GRID / CORD2x / uset2bulk / bulk2uset and real / complex DMIG with non-integer values.  Coordinate values
 are drawn with mixed magnitudes (up to ~12 decades on one card, tiny non-zero components next to large
@@ -31,34 +39,54 @@ import numpy as np
 from runner import Infra
 
 ID = "C13"
-LEAN_MODULES = ["PyYetiVerif.Props.C13", "PyYetiVerif.Audit.C13"]
+LEAN_MODULES = ["PyYetiVerif.Props.C13", "PyYetiVerif.Props.C13Text", "PyYetiVerif.Props.C13Dmig", "PyYetiVerif.Props.C13Grid",
+                "PyYetiVerif.Props.C13Cord", "PyYetiVerif.Audit.C13"]
 AUDIT_FILE = "PyYetiVerif/Audit/C13.lean"
 THEOREMS = [
     "PyYetiVerif.C13." + n
     for n in (
         "thru_roundtrip thru_maximal nasints_layout nasints_columns spoint_roundtrip csuper_roundtrip "
         "extrn_roundtrip set_wrap_roundtrip wrap_line_length tabled1_layout fixed_field_slicing "
-        "dmig_structure dmig_form6_iff dmig_roundtrip dmig_ncol_form9 dmig_header_ncol"
+        "dmig_structure dmig_form6_iff dmig_roundtrip dmig_ncol_form9 dmig_header_ncol "
+        "int_field_roundtrip int_field_padL set_roundtrip set_any_wrap tabled1_roundtrip "
+        "spoint_lines_roundtrip csuper_lines_roundtrip extrn_lines_roundtrip "
+        "dmig_roundtrip_converse dmig_assignments_iff dmig_reader_on_written dmig_frame_roundtrip "
+        "dmig_value_field dmig_lines_cards dmig_text_roundtrip "
+        "vecwrite_length_rule vecwrite_mismatch_raises vecwrite_broadcast wtgrids_packaging wtgrids_mismatch_raises "
+        "grid_roundtrip cord2_roundtrip uset_roundtrip"
     ).split()
 ]
 TRUSTED = [
     "correspondence harness harness/props/c13.py (exact text; number fields as exact decimals)",
-    "CPython str.format for '{:8d}', '{:<8s}', '{:16.9E}' (integer rendering `dec` = Lean `toString`; "
+    "CPython str.format for '{:8d}', '{:<8s}', '{:>8}', '{:16.9E}' (integer rendering `dec` = Lean `toString`; "
     "the %E rendering of integer-valued doubles |v| < 1e9 is modelled by `fmtE9` and correspondence-checked)",
-    "numeric field values (format_float8/16, '{:16.9E}' of non-integers, float()) belong to C12; here they are "
-    "compared through the oracle to the precision of the written format",
+    "numeric field values (format_float8/16, '{:16.9E}' of non-integers, the `form` of wtgrids / wttabled1, '{:16.8e}' of "
+    "wtcoordcards, float()) belong to C12: the harness formats them with the card's own format string and hands them to the "
+    "model as opaque tokens, the theorems say the reader returns nas_sscanf(token); values are compared through the oracle "
+    "to the precision of the written format",
     "text domain of the reader model: ASCII, no tabs, no 'inf'/'nan' words, no '_' inside numbers, no INCLUDE",
     "np.allclose(m.T, m) of wtdmig is modelled as exact symmetry (correspondence uses integers |v| < 1e4, where the two coincide)",
-    "pandas MultiIndex / DataFrame construction in rddmig, n2p.addgrid / build_coords geometry (C14)",
+    "rddmig locates a cell by np.searchsorted on 10*id+dof, the model by label equality (the same for DOF 0..9); pandas "
+    "MultiIndex / DataFrame construction around the assembled matrix",
+    "vecwrite arguments are Python scalars, lists, tuples or 1-d numpy arrays (np.ndim == 2 matrices and 0-d arrays are not "
+    "used by the C13 writers)",
+    "wtcoordcards' noise floor (values below 1e-15 of the card's largest are written as 0) is applied by the harness before "
+    "formatting the nine tokens; n2p.mkcordcardinfo / build_coords / addgrid geometry is C14 (rdcord2cards is compared "
+    "through the real build_coords applied to the model's rows)",
 ]
 RULE = (
     "id lists built from run structures (singletons, runs of 2..12, line-filling lengths 0..40, unsorted and "
     "repeated ids, 1..8 digit ids), every start field 1..10, SET max_length 24..72 and short widths that force "
     "token splits, TABLED1 with 0..13 points in four formats and both widths, DMIG with grid/scalar partial-DOF "
-    "index sets, forms 1/2/6/9, types 1-4; reader variants re-render the same cards in fixed-8 / fixed-16 / "
-    "comma form with random continuation markers, comments, blank lines, case and spacing. A case is one "
+    "index sets, forms 1/2/6/9, types 1-4; vecwrite with 1..5 arguments, each a scalar, a length-1 / length-N / "
+    "other-length list, tuple or array in every order (ValueError and IndexError cases included); wtgrids with 1..9 "
+    "grids, seven formats (8 and 16 wide), cp / cd / ps / seid scalar, length-1 vector, length-N vector or '' and "
+    "xyz with 1 row, N rows or a wrong number of rows; wtcoordcards with 1..3 systems of mixed magnitude; uset2bulk of "
+    "generated USET tables with 0..3 coordinate systems; reader variants re-render the same cards in fixed-8 / "
+    "fixed-16 / comma form with random continuation markers, comments, blank lines, case and spacing (GRID cards "
+    "of different length, CORD2x cards with 11, 12, 13 fields, words, near-miss names). A case is one "
     "(writer or reader, input) pair; non-trivial = the text has more than one physical line, a THRU, a wrap, "
-    "a continuation or a non-default form; distinct by the canonical input"
+    "a continuation, a vector argument or a non-default form; distinct by the canonical input"
 )
 ASSUMPTIONS = [
     "wtcoordcards zeroes values below 1e-15 of the largest value on the card (documented noise floor): coordinate "
@@ -69,37 +97,56 @@ ASSUMPTIONS = [
     "every integer written in an 8 (16) column field has at most 8 (16) characters",
     "DMIG names have at most 8 characters and do not parse as numbers",
     "TABLED1 pair formats produce two equal-width fields whose last character is not blank and that contain no '$'",
+    "SET ids and set ids are non-negative (the reader's regular expressions are \\d+)",
+    "GRID / CORD2x coordinate formats produce fields of exactly 8 (16) columns without '$' or ',' that do not end in a blank; "
+    "the card name of wttabled1 has at most 8 (7) characters without '$', ',' or '*'",
+    "DMIG row labels are duplicate-free and column labels are duplicate-free (pandas allows duplicates; the reader then "
+    "keeps the last term: shown by example in Props/C13Dmig.lean), DOF are 0..9",
+    "wtgrids / vecwrite with no grid at all raise IndexError (modelled, not part of the round trip)",
 ]
 PARTIAL = (
-    "dmig_roundtrip is proved in one direction on the field-list level (every non-zero term of a well-shaped frame "
-    "is among the reader's assignments, through the mirror for the upper triangle of form 6); missing: the converse "
-    "(no assignment other than a true term; needs duplicate-free labels) and rddmig's pandas assembly / sorted index "
-    "(correspondence only); the theorems live on id lists / card fields / physical lines: the decimal rendering and "
-    "parsing of a single integer or real field (parse(format(n)) = n) is not proved here (C12's domain; `Fld.val` "
-    "states it) and is tied by exact-text correspondence; set_wrap_roundtrip is stated on token groups (the comma "
-    "split / THRU regular expression of rdsets is correspondence-only); tabled1_layout is stated on field lists plus "
-    "the separate column-slicing theorem fixed_field_slicing (comment stripping and rstrip of a line are "
-    "correspondence-only); GRID, CORD2x and USET round trips are oracle-only (values go through C12 formats and C14 "
-    "geometry)"
+    "the decimal rendering and parsing of a single REAL field (parse(format(x)) ~ x) is not proved here (C12's domain): "
+    "coordinates, table values and DMIG terms enter the theorems as opaque written fields and the theorems say the reader "
+    "returns nas_sscanf(field) (`nasScan`; `enc` in the DMIG theorems) — integer fields are proved exactly "
+    "(int_field_roundtrip); the DMIG theorems on physical lines (dmig_lines_cards, dmig_text_roundtrip) cover integer-valued "
+    "terms with at most 10 digits (the model's `fmtE9` renders exactly those; other values are compared through the oracle) "
+    "and a name that nas_sscanf returns unchanged; "
+    "set_roundtrip assumes max_length >= the longest token (shorter max_length splits tokens: writer text is "
+    "correspondence-checked, no round trip claimed); rdcord2cards is modelled up to the twelve numbers per card handed to "
+    "n2p.build_coords and bulk2uset up to the arrays handed to n2p.addgrid (geometry: C14; tied through the real "
+    "build_coords and by the round-trip oracle); rddmig(expanded=True / square=True) and the op2 path are oracle-only"
 )
 MANIFEST = {
-    "level_text": "Proof (Lean 4, kernel-checked, standard axioms only) about an exact model of the structural layer of "
-    "the bulk-data writers and readers: THRU compression is inverted by expansion for every id list and emits THRU "
-    "exactly for maximal runs of length >= 2; wtnasints lays any list out from any start field in lines of at most "
-    "72 columns whose fields concatenate to the input; SPOINT / CSUPER / EXTRN cards read back the ids / id-dof "
-    "pairs; SET wrapping only breaks between tokens, every line fits max_length and the tokens expand to the ids; "
-    "TABLED1 lines (any number of points >= 0, both widths) slice back, column by column, to the same pair list with "
-    "ENDT last, and a line of equal-width fields slices back into those fields; DMIG: one column card per non-null "
-    "column in order, rows in order, exactly the non-zero terms (from the diagonal down for form 6, chosen only for "
-    "identical row/column index lists and a mirrored matrix), and every non-zero term of the frame is among the "
-    "reader's assignments (via the mirror for form 6). Tied to pyyeti/nastran/bulk.py by character-for-character "
-    "correspondence of writers and field-for-field correspondence of readers on written and independently rendered "
-    "texts. Right level: the layer is list/column arithmetic, fully provable; single-field number formats are C12.",
+    "level_text": "Proof (Lean 4, kernel-checked, standard axioms only) about an exact, character-level model of the bulk-data "
+    "writers and readers. Proved for all inputs: THRU compression is inverted by expansion and emits THRU exactly for "
+    "maximal runs; wtnasints lays any list out from any start field within 72 columns; rdspoints(wtspoints(ids)) = ids, "
+    "rdcsupers(wtcsuper(id, grids)) = {id: [id, 0, grids]} and rdextrn(wtextrn(ids, dof)) = the pairs, on physical lines; a written integer field is read back exactly (int(format(n)) = n, any "
+    "padding); rdsets(wtset(id, ids, max_length)) = {id: ids} on physical lines for every non-empty list of non-negative "
+    "ids and every max_length >= the longest token, and for ANY way of breaking the tokens into lines (the regular "
+    "expressions of rdsets are modelled as explicit scanners); rdtabled1(wttabled1(...)) on physical lines for every "
+    "number of points >= 0 and both widths (comment stripping, rstrip, column slicing, line padding, ENDT); DMIG: card "
+    "structure, form 6 iff identical index lists and mirrored matrix, the reader's assignments are EXACTLY the non-zero "
+    "terms (both directions, mirror included), and rddmig(wtdmig(X)) = X as one statement on the card values: sorted "
+    "duplicate-free row/column index = labels of the non-null rows/columns (union for form 6), every cell = the term (0 "
+    "for a zero term, imaginary part 0 for real types), nothing lost, for forms 1/2/6/9 and types 1-4 — and the same on "
+    "the physical lines of wtdmig (rddmig(text) returns exactly that one frame under the lower-cased name) for "
+    "integer-valued terms of at most 10 digits; writer.vecwrite: "
+    "the length rule (every argument longer than 1 has the row count, a later length-1 argument cannot reset it, two "
+    "different lengths raise) and the broadcast semantics for every packaging; wtgrids writes the text of the fully "
+    "expanded call for every packaging (scalar / length-1 / length-N, xyz 1 or N rows) and rdgrids(wtgrids(...)) returns "
+    "one row [id, cp, x, y, z, cd, ps, seid] per grid on physical lines (8 and 16 wide, short and PS/SEID forms, blank "
+    "fields as 0); rdcord2cards(wtcoordcards(ci)) gives [cid, type, ref, A, B, C] per card; uset2bulk's file is read back "
+    "by both readers of bulk2uset, neither disturbed by the other's cards. Real-valued fields are opaque written tokens "
+    "of which the theorems say the reader returns nas_sscanf(token). Tied to pyyeti/nastran/bulk.py and pyyeti/writer.py by "
+    "character-for-character correspondence of every writer and value-for-value correspondence of every reader on "
+    "written and independently rendered texts. Right level: the layer is list/column/character arithmetic, fully "
+    "provable; single real-field formats are C12, coordinate geometry C14.",
     "level_note": "Trusted: Lean kernel; propext, Classical.choice, Quot.sound; the Python harness; CPython integer "
-    "formatting. Not proved: parse(format(x)) of one numeric field (C12), the regular-expression SET reader, the "
-    "converse of dmig_roundtrip and the pandas assembly in rddmig (correspondence only), GRID/CORD2x/USET (oracle only, via C12/C14).",
-    "technique": "Lean 4 proof (induction over run/line/column structure) + exact-text differential correspondence "
-    "with pyyeti.nastran.bulk writers and readers",
+    "formatting. Not proved (tied by correspondence / oracle only): parse(format(x)) of one real field (C12); DMIG text "
+    "with non-integer terms (the card-value theorems cover them through `enc`); token splitting for max_length shorter than a token; n2p.build_coords / addgrid / "
+    "mkcordcardinfo behind rdcord2cards / bulk2uset / uset2bulk (C14); rddmig(expanded / square) and op2 DMIG.",
+    "technique": "Lean 4 proof (induction over run/line/column/character structure) + exact-text differential "
+    "correspondence with pyyeti.nastran.bulk / pyyeti.writer writers and readers",
 }
 
 NAMES_BAD = {"INF", "NAN", "INFINITY"}
@@ -516,7 +563,7 @@ class _Batch:
 
 def _text_conv(trailing_newline=True):
     def conv(rep):
-        if rep in ("bad-op", "error"):
+        if rep in ("bad-op", "error") or rep.startswith("error:"):
             return rep
         return _unhex(rep) + ("\n" if trailing_newline else "")
 
@@ -646,6 +693,8 @@ def _variant_texts(ctx, texts):
         ("set", "SET 8 = 1, 2,\n"),  # EOF inside a set
         ("set", "SET 9 = 1, x\n"),
         ("set", "set 10 = 5 thru 9,\n\n  11\n"),
+        ("set", "SET 11 = 1, 2,,\n3\n"),  # several trailing commas: rstrip(",") removes them all
+        ("set", "SET 12 = 4 THRU 6,,, \n 9,\n10\n"),
         ("extrn", "EXTRN,3,123456,11\n"),  # odd number of values
         ("extrn", "EXTRN          3  123456      11  123456 $ c\n"),
         ("spoint", "SPOINT*              980            thru            1004\n"),
@@ -720,6 +769,8 @@ def _variant_texts(ctx, texts):
                 for k, it in enumerate(items):
                     cur += it + ("," if k < len(items) - 1 else "")
                     if k < len(items) - 1 and rng.random() < 0.25:
+                        if rng.random() < 0.15:
+                            cur += "," * rng.randint(1, 2)  # extra trailing commas are stripped by the reader
                         lines.append(cur + " " * rng.randint(0, 2))
                         if rng.random() < 0.15:
                             lines.append("")
@@ -892,27 +943,361 @@ def _frame_canon(name, df):
 
 
 def _dmig_conv(rep):
+    """driver reply name|form|mtype|rows|cols|frame (the frame is assembled by the Lean model)"""
     if rep == "error":
         return rep
     if rep == "":
         return []
     out = []
     for item in rep.split(";"):
-        nm, form, mtype, rows, cols, ents = item.split("|")
+        nm, form, mtype, rows, cols, frame = item.split("|")
         rows = [tuple(int(x) for x in r.split(".")) for r in rows.split()]
         cols = [tuple(int(x) for x in r.split(".")) for r in cols.split()]
-        mat = [[(0.0, 0.0)] * len(cols) for _ in rows]
-        for e in ents.split():
-            r, c, x, y = e.split("@")
-            r = tuple(int(v) for v in r.split("."))
-            c = tuple(int(v) for v in c.split("."))
-            re = _num(_val_model(x)) or 0.0
-            im = _num(_val_model(y)) or 0.0
-            if _val_model(mtype)[1] < 3:
-                im = 0.0
-            mat[rows.index(r)][cols.index(c)] = (re, im)
+        mat = []
+        for line in (frame.split("/") if rows else []):
+            row = []
+            for e in line.split():
+                x, y = e.split("@")
+                row.append((_num(_val_model(x)) or 0.0, _num(_val_model(y)) or 0.0))
+            mat.append(row)
         out.append((_unhex(nm), rows, cols, mat))
     return out
+
+
+# ---------------------------------------------------------------------------------------
+# vecwrite / GRID / CORD2x / USET streams (Model/BulkGrid.lean)
+
+
+def _arg_req(v, opt=False):
+    """driver encoding of one vecwrite argument: scalar or list of ints ('' -> '-')"""
+    enc = (lambda x: "-" if x == "" else str(int(x))) if opt else (lambda x: str(int(x)))
+    if isinstance(v, (list, tuple, np.ndarray)):
+        return "v %d %s" % (len(v), " ".join(enc(x) for x in v)) if len(v) else "v 0"
+    return "s " + enc(v)
+
+
+def _pack(rng, n, lo, hi, opt=False, bad=0.0):
+    """one documented packaging of a per-grid quantity: scalar, length-1 vector, length-N vector
+    (rarely a vector of another length: the writer must refuse it)"""
+    u = rng.random()
+    if opt and u < 0.25:
+        return ""
+    if u < 0.45:
+        return rng.randint(lo, hi)
+    if u < 0.7:
+        return [rng.randint(lo, hi)]
+    m = n
+    if rng.random() < bad:
+        m = rng.choice([k for k in (0, 2, 3, n + 1, n + 2) if k != n and k != 1])
+    v = [rng.randint(lo, hi) for _ in range(m)]
+    if opt and v and rng.random() < 0.2:
+        v[rng.randrange(len(v))] = ""
+    return v
+
+
+GRID_FORMS = ["{:16.8f}", "{:8.2f}", "{:8.3f}", "{:16.6f}", "{:16.8e}", "{:16.9E}", "{:8.1f}"]
+
+
+def _gen_grid_case(rng, bad=0.12):
+    n = rng.choice([1, 1, 2, 3, 4, 5, 6, 9])
+    form = rng.choice(GRID_FORMS)
+    lim = {"{:8.2f}": 9999.0, "{:8.3f}": 999.0, "{:8.1f}": 99999.0}.get(form, 9.9e5)
+    m = n if rng.random() < 0.55 else 1
+    if rng.random() < bad:
+        m = rng.choice([k for k in (2, 3, n + 1) if k != n])
+    xyz = [[round(rng.uniform(-lim, lim), 3) * rng.choice([1, 1, 1e-3, 0]) for _ in range(3)] for _ in range(m)]
+    return {"ids": sorted(rng.sample(range(1, 99999999), n)), "cp": _pack(rng, n, 0, 9999, bad=bad), "xyz": xyz,
+            "cd": _pack(rng, n, 0, 9999, bad=bad), "form": form, "ps": _pack(rng, n, 1, 123456, opt=True, bad=bad),
+            "seid": _pack(rng, n, 1, 99, opt=True, bad=bad)}
+
+
+def _grid_req(c):
+    form = c["form"]
+    wide = len(form.format(1.0)) == 16
+    toks = []
+    for row in c["xyz"]:
+        toks += [_hex(form.format(v)) for v in row]
+    return "grids %d I %s C %s X %d %s D %s P %s S %s" % (
+        1 if wide else 0, _arg_req(c["ids"]), _arg_req(c["cp"]), len(c["xyz"]), " ".join(toks), _arg_req(c["cd"]),
+        _arg_req(c["ps"], True), _arg_req(c["seid"], True))
+
+
+def _grid_write(c):
+    return _write(_bulk().wtgrids, c["ids"], c["cp"], np.array(c["xyz"], dtype=float), c["cd"], c["ps"], c["seid"], c["form"])
+
+
+def _cord_tokens(name, cid, coord):
+    """what wtcoordcards prints for one system: noise floor 1e-15 of the largest value, '{:16.8e}'"""
+    abc = np.array(coord[1:], dtype=float)
+    abc[abs(abc) < abs(abc).max() * 1e-15] = 0.0
+    return "%s %d %d %s" % (_hex(name), cid, int(coord[0][2]), " ".join(_hex("{:16.8e}".format(v)) for v in abc.ravel()))
+
+
+def _gen_cord_ci(rng):
+    ci = {}
+    for _ in range(rng.randint(1, 3)):
+        cid = rng.randint(1, 99999999)
+        typ = rng.randint(1, 3)
+        if rng.random() < 0.5:
+            abc = [[_mixed(rng, -6, 6, 0.2) for _ in range(3)] for _ in range(3)]
+        else:
+            abc = [[round(rng.uniform(-500, 500), 2) for _ in range(3)] for _ in range(3)]
+        ci[cid] = [{1: "CORD2R", 2: "CORD2C", 3: "CORD2S"}[typ],
+                   np.vstack([[cid, typ, rng.choice([0, 0, 5, 12345678])], np.array(abc, dtype=float)])]
+    return ci
+
+
+def _uset_parts(uset):
+    """the quantities uset2bulk takes from a USET table (documented layout: row dof 1 = location,
+    row dof 2 = [cd id, type, 0])"""
+    from pyyeti.nastran import n2p
+
+    ci = n2p.mkcordcardinfo(uset)
+    dof = uset.index.get_level_values("dof")
+    ids = [int(i) for i in uset.index.get_level_values("id")[dof == 1]]
+    xyz = uset.loc[dof == 1, "x":"z"].values
+    cd = [int(v) for v in uset.loc[dof == 2, "x"].values]
+    return ci, ids, xyz, cd
+
+
+def _grid_streams(ctx, B, texts):
+    bulk = _bulk()
+    from pyyeti import writer
+
+    rng = ctx.rng
+    # vecwrite: argument packaging -----------------------------------------------------------
+    for _ in range(ctx.pick(400, 4000)):
+        n = rng.choice([0, 1, 2, 3, 5])
+        args = []
+        for _ in range(rng.randint(1, 5)):
+            u = rng.random()
+            if u < 0.3:
+                a = rng.randint(-99, 999)
+            elif u < 0.5:
+                a = [rng.randint(-99, 999)]
+            elif u < 0.9:
+                a = [rng.randint(-99, 999) for _ in range(n)]
+            else:
+                a = [rng.randint(-99, 999) for _ in range(rng.choice([0, 2, 3, 4]))]
+            if isinstance(a, list) and rng.random() < 0.3:
+                a = np.array(a, dtype=np.int64) if rng.random() < 0.5 else tuple(a)
+            args.append(a)
+        impl = _write(writer.vecwrite, " ".join(["{}"] * len(args)) + "\n", *args)
+        kind = "value-error" if impl == "error:ValueError" else ("index-error" if impl == "error:IndexError" else "ok")
+        lens = sorted({len(a) for a in args if not isinstance(a, int)})
+        B.add("vecwrite", "vecw " + " ".join(_arg_req(a) for a in args),
+              {"args": [a.tolist() if isinstance(a, np.ndarray) else (list(a) if isinstance(a, tuple) else a) for a in args]},
+              impl, _text_conv(), nontrivial=len(lens) > 0,
+              branch=["vecw:" + kind] + (["vecw:len1-after-lenN"] if _len1_after_lenN(args) else []))
+
+    # wtgrids: every packaging --------------------------------------------------------------
+    for k in range(ctx.pick(500, 5000)):
+        c = _gen_grid_case(rng)
+        impl = _grid_write(c)
+        wide = len(c["form"].format(1.0)) == 16
+        short = c["ps"] == "" and c["seid"] == ""
+        br = ["grids:%s-%d" % ("short" if short else "long", 16 if wide else 8)]
+        if impl.startswith("error"):
+            br.append("grids:" + impl.split(":")[1])
+        else:
+            n = len(c["ids"])
+            if n > 1 and len(c["xyz"]) == 1:
+                br.append("grids:one-row-xyz")
+            if n > 1 and any(isinstance(c[q], list) and len(c[q]) == 1 for q in ("cp", "cd", "ps", "seid")):
+                br.append("grids:len1-vector")
+            if k % 3 == 0:
+                texts.append(("grid", impl))
+        B.add("wtgrids", _grid_req(c), c, impl, _text_conv(), nontrivial=True, branch=br)
+    # the signature defaults: wtgrids(f, ids) --------------------------------------------------
+    for n in (1, 2, 5):
+        ids = list(range(11, 11 + n))
+        c = {"ids": ids, "cp": 0, "xyz": [[0.0, 0.0, 0.0]], "cd": 0, "form": "{:16.8f}", "ps": "", "seid": ""}
+        B.add("wtgrids", _grid_req(c), c, _write(bulk.wtgrids, ids), _text_conv(), branch="grids:defaults")
+
+    # wtcoordcards --------------------------------------------------------------------------
+    for k in range(ctx.pick(150, 1500)):
+        ci = _gen_cord_ci(rng)
+        impl = _write(bulk.wtcoordcards, ci)
+        req = "cords %d %s" % (len(ci), " ".join(_cord_tokens(v[0], cid, v[1]) for cid, v in ci.items()))
+        B.add("wtcoordcards", req, {"systems": [(cid, v[0], v[1].tolist()) for cid, v in ci.items()]}, impl, _text_conv(),
+              branch="cord:written")
+        if not impl.startswith("error") and k % 2 == 0:
+            texts.append(("cord2", impl))
+
+    # uset2bulk -----------------------------------------------------------------------------
+    for k in range(ctx.pick(40, 400)):
+        case = {"seed": rng.randint(0, 2 ** 31), "ncs": rng.randint(0 if k % 3 == 0 else 1, 3), "ngrids": rng.randint(1, 5),
+                "mixed": k % 2 == 0}
+        if k % 3 == 0:
+            case["ncs"] = 0
+        try:
+            uset = _gen_uset(case)[0]
+            ci, ids, xyz, cd = _uset_parts(uset)
+        except Exception as e:
+            ctx.skip("uset-generator:" + type(e).__name__)
+            continue
+        impl = _write(bulk.uset2bulk, uset)
+        toks = []
+        for row in xyz:
+            toks += [_hex("{:16.8f}".format(v)) for v in row]
+        req = "uset %d %s I %s X %d %s D %s" % (
+            len(ci), " ".join(_cord_tokens(v[0], cid, v[1]) for cid, v in ci.items()), _arg_req(ids), len(xyz), " ".join(toks),
+            _arg_req(cd))
+        B.add("uset2bulk", req, case, impl, _text_conv(), branch="uset:" + ("with-coords" if ci else "no-coords"))
+        if not impl.startswith("error"):
+            texts.append(("uset", impl))
+
+
+def _len1_after_lenN(args):
+    seen = False
+    for a in args:
+        if isinstance(a, int):
+            continue
+        if len(a) > 1:
+            seen = True
+        elif len(a) == 1 and seen:
+            return True
+    return False
+
+
+def _grid_variant_texts(ctx):
+    """independently rendered GRID / CORD2x files (fixed 8, fixed 16, comma; blank fields, words, lower
+    case, comments, foreign cards, cards of different length)"""
+    rng = ctx.rng
+    out = [("grid", "GRID\n"), ("grid", "GRID    \nGRID           1\n"), ("grid", "$ nothing here\nCORD2R  1\n"),
+           ("grid", "grid,7,,1.,2.,3.\nGRID*                  8               0              1.              2.\n*                     3.\n"),
+           ("cord2", "CORD2R,1,0,0.,0.,0.,0.,0.,1.\n,1.,0.,0.\n"), ("cord2", "cord2c  2       0       0.      0.      0.      0.      0.      1.\n        1.      0.      0.\n"),
+           ("cord2", "CORD2R,1,0,0.,0.,0.,0.,0.,1.\n,1.,0.\n"), ("cord2", "CORD2RX 1\nCORD2R1 2\nCORD2X  3\n"),
+           ("cord2", "CORD2S,3,,0.,0.,0.,0.,0.,1.\n,1.,0.,0.,\n"), ("cord2", "CORD2S,3,,0.,0.,0.,0.,0.,1.\n,1.,0.,0.,0.\n"),
+           ("cord2", "CORD2S,3,,0.,0.,0.,0.,0.,1.\n,1.,0.,THRU\n")]
+    for _ in range(ctx.pick(200, 2000)):
+        cards = []
+        for _ in range(rng.randint(1, 4)):
+            nf = rng.choice([0, 1, 3, 5, 6, 6, 7, 8, 8, 9, 10])
+            f = []
+            for j in range(nf):
+                if j in (2, 3, 4):
+                    f.append(rng.choice(REALS + [""]))
+                else:
+                    f.append(rng.choice([str(_rand_id(rng, rng.randint(1, 7))), "0", "", "123456", rng.choice(WORDS)]))
+            nm = "GRID" if rng.random() < 0.85 else rng.choice(["GRIDX", "CORD2R", "SPOINT"])
+            cards.append(_render_card(rng, nm, f))
+        out.append(("grid", _decorate(rng, cards)))
+    for _ in range(ctx.pick(200, 2000)):
+        cards = []
+        for _ in range(rng.randint(1, 3)):
+            f = [str(_rand_id(rng, rng.randint(1, 7))), rng.choice(["0", "", "5"])] + [rng.choice(REALS) for _ in range(9)]
+            u = rng.random()
+            if u < 0.08:
+                f = f[:-1]
+            elif u < 0.16:
+                f.append(rng.choice(["", "0", "0.", "7"]))
+            elif u < 0.2:
+                f[rng.randint(2, 10)] = rng.choice(["THRU", ""])
+            nm = rng.choice(["CORD2R", "CORD2C", "CORD2S", "CORD2R", "CORD2X", "CORD2R1", "CORD1R"])
+            cards.append(_render_card(rng, nm, f))
+        out.append(("cord2", _decorate(rng, cards)))
+    return out
+
+
+def _rows_conv(rep):
+    """rows of numbers printed by the driver -> list of lists of float"""
+    if rep in ("none", "error", "error:IndexError"):
+        return rep
+    return [[_num(v) if _num(v) is not None else 0.0 for v in _card_model(c)] for c in rep.split(";")]
+
+
+def _grid_reader_streams(ctx, B, texts):
+    bulk = _bulk()
+    from pyyeti.nastran import n2p
+
+    rng = ctx.rng
+    allt = [(k, t) for k, t in texts if k in ("grid", "cord2", "uset")] + _grid_variant_texts(ctx)
+    for kind, text in list(allt):
+        if kind == "grid" and rng.random() < 0.3:
+            allt.append(("grid", _grid_to_comma(text, rng)))
+    for kind, text in allt:
+        th = _hex(text)
+        if kind in ("grid", "uset"):
+            r = _read(bulk.rdgrids, text)
+            if r is None:
+                impl = "none"
+            elif isinstance(r, str):
+                impl = r
+            else:
+                impl = [[float(v) for v in row] for row in r.tolist()]
+            br = ["rdgrids:" + ("none" if impl == "none" else ("index-error" if impl == "error:IndexError" else "ok"))]
+            if not isinstance(impl, str) and len({len([x for x in ln.split(",")]) for ln in text.split("\n") if ln.lower().startswith("grid")}) > 1:
+                br.append("rdgrids:ragged")
+            B.add("rdgrids", "rdgrids " + th, {"text": text}, impl, _rows_conv, nontrivial=text.count("\n") > 1, branch=br)
+        if kind in ("cord2", "uset"):
+            cards = _read(bulk.rdcards, text, r"(cord2[rcs])\b", return_var="list", regex=True, keep_name=True, blank=0)
+            impl = "none" if cards is None else (cards if isinstance(cards, str) else [[_val_py(v) for v in c] for c in cards])
+
+            def conv_k(rep):
+                m = _cards_model(rep)
+                return m if isinstance(m, str) else [[("i", 0) if v == ("b",) else v for v in c] for c in m]
+
+            B.add("rdcards-regex-keepname", "rdcardsk " + th, {"text": text}, impl, conv_k, branch="rdcardsk")
+            # the twelve numbers handed to n2p.build_coords, and the final dictionary through build_coords
+            conv_fn = getattr(bulk, "_convert_card", None)
+            if conv_fn is not None and not isinstance(cards, str):
+                try:
+                    impl2 = [[float(v) for v in conv_fn(list(c))] for c in (cards or [])]
+                except ValueError:
+                    impl2 = "error"
+                B.add("rdcord2-convert", "rdcord2 " + th, {"text": text}, impl2,
+                      lambda rep: [] if rep == "" else _rows_conv(rep),
+                      branch=["rdcord2:" + ("error" if impl2 == "error" else ("empty" if not impl2 else "ok"))] +
+                             (["rdcord2:13-fields"] if not isinstance(cards, str) and any(len(c) == 13 for c in (cards or [])) else []))
+            full = _read(bulk.rdcord2cards, text)
+
+            def conv_full(rep, n2p=n2p):
+                rows = [] if rep == "" else _rows_conv(rep)
+                if rows == "error":
+                    return "error:ValueError"
+                if not rows:
+                    return {}
+                try:
+                    d = n2p.build_coords(np.array(rows, dtype=float))
+                except Exception as e:
+                    return "error:" + type(e).__name__
+                return {int(k): v.tolist() for k, v in d.items()}
+
+            implf = full if isinstance(full, str) else {int(k): v.tolist() for k, v in full.items()}
+            B.add("rdcord2cards", "rdcord2 " + th, {"text": text}, implf, conv_full, branch="rdcord2cards")
+
+
+def _grid_to_comma(text, rng):
+    """free-format rendering of written GRID cards (8- and 16-wide), lower case now and then"""
+    out = []
+    lines = [l for l in text.split("\n") if l]
+    i = 0
+    while i < len(lines):
+        l = lines[i]
+        if l.startswith("GRID*"):
+            fs = [l[j:j + 16].strip() for j in range(8, len(l), 16)]
+            if i + 1 < len(lines) and lines[i + 1].startswith("*"):
+                l2 = lines[i + 1]
+                fs += [""] * (4 - len(fs)) + [l2[j:j + 16].strip() for j in range(8, len(l2), 16)]
+                i += 1
+            name = "GRID"
+        elif l.startswith("GRID"):
+            fs = [l[j:j + 8].strip() for j in range(8, len(l), 8)]
+            name = "GRID"
+        else:
+            out.append(l)
+            i += 1
+            continue
+        if rng.random() < 0.3:
+            name = name.lower()
+        if len(fs) > 8:
+            out.append(",".join([name] + fs[:8]))
+            out.append(",".join([""] + fs[8:]))
+        else:
+            out.append(",".join([name] + fs))
+        i += 1
+    return "\n".join(out) + "\n"
 
 
 REQUIRED = [
@@ -923,6 +1308,11 @@ REQUIRED = [
     "dmig:form1", "dmig:form2", "dmig:form6", "dmig:form9", "dmig:type1", "dmig:type2", "dmig:type3", "dmig:type4",
     "dmig:kind-f9-unequal", "reader:comma", "reader:fixed", "reader:fixed16", "reader:comment",
     "rdspoints", "rdcsupers", "rdextrn:ok", "rdextrn:error", "rdtabled1:ok", "rdsets:ok", "rdsets:error", "rddmig",
+    "vecw:ok", "vecw:value-error", "vecw:index-error", "vecw:len1-after-lenN",
+    "grids:short-8", "grids:short-16", "grids:long-8", "grids:long-16", "grids:one-row-xyz", "grids:len1-vector",
+    "grids:ValueError", "grids:defaults", "cord:written", "uset:with-coords", "uset:no-coords",
+    "rdgrids:ok", "rdgrids:none", "rdgrids:index-error", "rdgrids:ragged", "rdcardsk", "rdcord2:ok", "rdcord2:error",
+    "rdcord2:empty", "rdcord2:13-fields", "rdcord2cards",
 ]
 
 
@@ -930,7 +1320,9 @@ def correspondence(ctx):
     B = _Batch()
     texts = []
     _writer_streams(ctx, B, texts)
+    _grid_streams(ctx, B, texts)
     _reader_streams(ctx, B, texts)
+    _grid_reader_streams(ctx, B, texts)
     B.run(ctx)
     for it in B.items[:: max(1, len(B.items) // 6)]:
         ctx.sample({"stream": it[0], "input": it[2]})
@@ -1223,6 +1615,16 @@ def _o_grids(case):
     bulk = _bulk()
     ids, cp, xyz, cd, form, ps, seid = (case[k] for k in ("ids", "cp", "xyz", "cd", "form", "ps", "seid"))
     text = _write(bulk.wtgrids, ids, cp, np.array(xyz), cd, ps, seid, form)
+    nn = len(ids)
+    bad = [q for q, v in (("cp", cp), ("xyz", xyz), ("cd", cd), ("ps", ps), ("seid", seid))
+           if isinstance(v, list) and len(v) not in (1, nn)]
+    if bad:
+        if nn == 1 or any(isinstance(case[q], list) and len(case[q]) == 0 for q in bad):
+            return None  # empty vector, or a single grid with longer vectors: outside the documented domain
+        if text != "error:ValueError":
+            return ("wtgrids-mismatch-not-refused", "an argument with %s rows for %d grids is not refused" % (bad, nn),
+                    text[:200], "ValueError")
+        return None
     if text.startswith("error"):
         return ("wtgrids-raises", "wtgrids raises", text, "GRID cards")
     if any(len(l) > 72 for l in text.split("\n")):
@@ -1246,7 +1648,8 @@ def _o_grids(case):
     return None
 
 
-def _o_uset(case):
+def _gen_uset(case):
+    """-> (uset, cref, cout)"""
     from pyyeti.nastran import n2p
 
     bulk = _bulk()
@@ -1290,10 +1693,43 @@ def _o_uset(case):
         xyz.append(p)
         cout.append(0 if rng.random() < 0.3 or not order else int(order[rng.integers(0, len(order))]))
     cref = {}
+    # define all systems first (reference chain order), then the grids by id
+    u0 = n2p.addgrid(None, list(range(90001, 90001 + ncs)), "b", 0, np.zeros((ncs, 3)), [systems[c] for c in order], cref) if ncs else None
+    uset = n2p.addgrid(None, gids, "b", cin, np.array(xyz), cout, cref)
+    return uset, cref, cout
+
+
+def _o_vecwrite(case):
+    """documented semantics of writer.vecwrite, restated without the model: scalars and length-1 arrays are repeated,
+    the row count is the common length of the longer arguments, two different lengths > 1 raise ValueError"""
+    from pyyeti import writer
+
+    args = case["args"]
+    conv = [np.array(a, dtype=np.int64) if (isinstance(a, list) and case.get("arrays")) else a for a in args]
+    lens = sorted({len(a) for a in args if isinstance(a, list) and len(a) > 1})
+    text = _write(writer.vecwrite, " ".join(["{}"] * len(args)) + "\n", *conv)
+    if len(lens) > 1:
+        if text != "error:ValueError":
+            return ("vecwrite-mismatch-not-refused", "arguments of different lengths > 1 are not refused", text[:200], "ValueError")
+        return None
+    if any(isinstance(a, list) and len(a) == 0 for a in args):
+        return None  # empty argument: outside the documented domain (IndexError today)
+    n = lens[0] if lens else 1
+    want = "".join(" ".join(str(a if not isinstance(a, list) else (a[0] if len(a) == 1 else a[i])) for a in args) + "\n"
+                   for i in range(n))
+    if text != want:
+        fam = "vecwrite-length1-array-not-repeated" if any(isinstance(a, list) and len(a) == 1 for a in args) else "vecwrite-rows"
+        return (fam, "vecwrite does not write the documented rows (scalars and length-1 arrays repeated, N-vectors by element)",
+                text[:300], want[:300])
+    return None
+
+
+def _o_uset(case):
+    from pyyeti.nastran import n2p
+
+    bulk = _bulk()
     try:
-        # define all systems first (reference chain order), then the grids by id
-        u0 = n2p.addgrid(None, list(range(90001, 90001 + ncs)), "b", 0, np.zeros((ncs, 3)), [systems[c] for c in order], cref) if ncs else None
-        uset = n2p.addgrid(None, gids, "b", cin, np.array(xyz), cout, cref)
+        uset, cref, cout = _gen_uset(case)
     except Exception as e:
         return ("skip", "generator: " + type(e).__name__)
     text = _write(bulk.uset2bulk, uset)
@@ -1437,6 +1873,17 @@ def _gen_oracle_cases(ctx):
             "seid": rng.choice(["", 5, [7], [rng.randint(1, 9) for _ in range(n)]]),
             "packaging": True,
         }))
+    for k in range(ctx.pick(200, 2000)):
+        n = rng.choice([1, 2, 3, 5])
+        args = []
+        for _ in range(rng.randint(1, 5)):
+            u = rng.random()
+            args.append(rng.randint(-99, 999) if u < 0.3 else [rng.randint(-99, 999)] if u < 0.55 else
+                        [rng.randint(-99, 999) for _ in range(n if u < 0.93 else rng.choice([2, 3, 4]))])
+        cases.append(("vecwrite", {"args": args, "arrays": k % 2 == 0}))
+    for _ in range(ctx.pick(40, 400)):
+        c = _gen_grid_case(rng, bad=0.3)
+        cases.append(("grids", c))
     for k in range(ctx.pick(60, 600)):
         cases.append(("uset", {"seed": rng.randint(0, 2 ** 31), "ncs": rng.randint(0 if k % 2 else 1, 4), "ngrids": rng.randint(1, 6),
                                "mixed": k % 2 == 0}))
@@ -1510,6 +1957,18 @@ def _hint_cases(hints):
                 d["kind"] = "hint"
                 d["values"] = vals
                 out.append(("dmig", d))
+            elif st == "vecwrite":
+                out.append(("vecwrite", {"args": inp["args"], "arrays": False}))
+                out.append(("vecwrite", {"args": inp["args"], "arrays": True}))
+            elif st == "wtgrids":
+                out.append(("grids", {k: inp[k] for k in ("ids", "cp", "xyz", "cd", "form", "ps", "seid")}))
+            elif st == "wtcoordcards":
+                out.append(("cord", {"systems": [(cid, {"CORD2R": 1, "CORD2C": 2, "CORD2S": 3}[nm], int(c[0][2]), c[1:])
+                                                 for cid, nm, c in inp["systems"]]}))
+            elif st == "uset2bulk":
+                out.append(("uset", inp))
+            elif st in ("rdgrids",) and "GRID" in inp.get("text", "").upper():
+                pass
         except Exception:
             continue
     return out
@@ -1533,6 +1992,9 @@ def _run_oracle_case(kind, case, known):
         return [r] if r else []
     if kind == "cord":
         r = _o_cord(case)
+        return [r] if r else []
+    if kind == "vecwrite":
+        r = _o_vecwrite(case)
         return [r] if r else []
     return []
 
